@@ -56,6 +56,13 @@ def corpus():
         "\ud800@a{\udfff}",
         "@İ{k}",
         "@a{k, f = {v}}\x00\x0b\x0c\x1c\x85 ",
+        # the default stack runs on every parse: @strings defined by themselves, by each other, in long chains; references to
+        # them; definitions and keys that differ only in case; empty and blank keys
+        "@string{a = a}\n@article{k, title = a}",
+        "@string{x = y}\n@string{y = x}\n@misc{m, note = y, n2 = x # y}",
+        "".join("@string{s%d = s%d}\n" % (i, i + 1) for i in range(3000)) + "@a{k, f = s0}",
+        "@string{Foo = \"a\"}\n@string{foo = \"b\"}\n@string{FOO = foo}\n@a{K, f = Foo}\n@a{k, f = FOO}",
+        "@string{ = 1}\n@a{, = }\n@a{ , f = }\n@string{a = }\n@a{k, f = a}",
     ]
     return [{"t": t} for t in texts]
 
